@@ -780,10 +780,10 @@ fn replay(args: &Args) -> i32 {
 // golden paragraphs broken by real TeX
 // ------------------------------------------------------------------------------------------
 
-const GOLDEN_DIR: &str = concat!(env!("CARGO_MANIFEST_DIR"), "/../../repo/crates/boxworks-knuthplass/testdata");
+const GOLDEN_DIR: &str = concat!(env!("VH_REPO"), "/crates/boxworks-knuthplass/testdata");
 const CMR10: &[u8] = include_bytes!(concat!(
-    env!("CARGO_MANIFEST_DIR"),
-    "/../../repo/crates/tfm/corpus/computer-modern/cmr10.tfm"
+    env!("VH_REPO"),
+    "/crates/tfm/corpus/computer-modern/cmr10.tfm"
 ));
 
 struct Golden {
